@@ -3,15 +3,15 @@
 EXTENDS LifeMech, Json, IOUtils, TLCExt, SequencesExt
 
 Traces == JsonDeserialize(IOEnv.TRACE_FILE)
-VARIABLES tid, l, status, expect, order, nonlifo, fails, m, mrecv, incall
-vars == <<tid, l, status, expect, order, nonlifo, fails, m, mrecv, incall>>
+VARIABLES tid, l, status, expect, order, nonlifo, fails, m, mrecv, incall, lraised
+vars == <<tid, l, status, expect, order, nonlifo, fails, m, mrecv, incall, lraised>>
 T == Traces[tid]
 S == T.steps[l]
 
 Init == /\ tid \in 1..Len(Traces) /\ l = 1
         /\ status = [p \in Probes |-> "new"] /\ expect = [p \in Probes |-> <<>>]
         /\ order = <<>> /\ nonlifo = FALSE /\ fails = <<>>
-        /\ m = MInit /\ mrecv = [p \in Probes |-> 0] /\ incall = FALSE
+        /\ m = MInit /\ mrecv = [p \in Probes |-> 0] /\ incall = FALSE /\ lraised = FALSE
         /\ TLCSet(tid, <<0, <<>>>>)
 
 RecSet(r) == { <<r[i][1], r[i][2]>> : i \in DOMAIN r }
@@ -45,13 +45,15 @@ MechExplains(m2, mr2) ==
   /\ (m2.cur # None => S.obs.cur.ids = m2.cur)
   /\ \A p \in Probes : Len(S.obs.recv[p]) = mr2[p]
   /\ \A fn \in Fns : S.obs.orig[fn] = IsOrig(m2, fn) /\ S.obs.cnt[fn] = m2.cnt[fn]
-Rec(clause) == [line |-> l, clause |-> clause[1], who |-> clause[2], nonlifo |-> nonlifo', incall |-> incall',
+Rec(clause) == [line |-> l, clause |-> clause[1], who |-> clause[2], nonlifo |-> nonlifo', incall |-> incall', lraised |-> lraised',
                 op |-> S.op[1], mech |-> MechExplains(m', mrecv')]
 AddAll(f, cs) == f \o SetToSeq({Rec(c) : c \in cs})
 
 Step ==
   /\ l <= Len(T.steps) /\ l' = l + 1 /\ UNCHANGED tid
   /\ incall' = (incall \/ S.op[1] = "calld")
+  \* a listener of another probe raised at the end of a call while this history was going on
+  /\ lraised' = (lraised \/ (S.op[1] = "call" /\ ListenerRaises(Active(status), S.op[2], S.op[3])))
   /\ LET op == S.op IN
      CASE op[1] = "calld" ->
             \* ["calld", v, p]: f(v); where f calls g, probe p (active) is deactivated; the call then finishes
